@@ -2,7 +2,7 @@
 import sx
 import lapgen as G
 
-CHROMS = [b'chr1', b'chr10', b'chr', b'chr2', b'c', b'chrX', 'chré'.encode(), b'1']
+CHROMS = [b'chr1', b'chr10', b'chr', b'chr2', b'c', b'chrX', 'chré'.encode(), b'1', b'']      # the empty name is a legal chromosome ("\t5\t9" parses to it)
 W64 = G.W64
 
 
